@@ -15,6 +15,7 @@ from mc.canon import canon
 from mc.explore import bfs
 from mc import exact as X
 from mc.c12_guard import Guard, INITS, blame_run, lib_dir_of, _short
+from mc import c12_exact as XE
 
 ID = "C12"
 TECHNIQUE = "bounded-exhaustive lattice sweeps vs exact oracles + explicit-state BFS over call histories x numpy error states"
@@ -53,6 +54,7 @@ HALF = lambda lo, hi: [x / 2 for x in range(2 * lo - 1, 2 * hi + 2)]     # half-
 L2 = [-2, -1, 0, 1, 2]
 L1 = [-1, 0, 1]
 L1P = [-1, 0, 1, 2]
+UNIT_EXPS = (-30, 30)
 
 
 def tasks(tier):
@@ -108,6 +110,34 @@ def tasks(tier):
     chunks(dict(kind="plane", alpha=L1), 3)
     chunks(dict(kind="lines2d", palpha=L1, dalpha=L2 if th else L1), 9)
     chunks(dict(kind="seg2d", alpha=L2), 5)
+    # ---- (b') calling forms and exact element types on large-magnitude lattices (mc/c12_exact.py)
+    T.extend(XE.tasks(tier))
+    # ---- (b'') unit-of-length deviation: the same sweeps with every length multiplied by 2^-30 / 2^30 (exact in
+    # binary64), expectations scaled by the matching power; float arrays only (integer products would leave int64)
+    for ue in UNIT_EXPS:
+        u = dict(unit_exp=ue, dtype="float")
+        T.append(dict(u, kind="cross_dot_norm"))
+        T.append(dict(u, kind="det2"))
+        chunks(dict(u, kind="det3", alpha=L1), 3)
+        uo = L2 if th else L1
+        for k in ("angle3", "cotan", "circum"):
+            chunks(dict(u, kind=k, inner=L1, outer=uo), (27 if th else 3) * (2 if k == "circum" else 1))
+        chunks(dict(u, kind="signed", outer=uo), 25 if th else 3)
+        T.append(dict(u, kind="rot2d"))
+        chunks(dict(u, kind="rot3d", full=False), 27)
+        chunks(dict(u, kind="plane", alpha=L1), 3)
+        chunks(dict(u, kind="lines2d", palpha=L1, dalpha=L2 if th else L1), 9)
+        chunks(dict(u, kind="seg2d", alpha=L2), 5)
+        chunks(dict(u, kind="box_point", d=1, corners=L2, points=HALF(-2, 2)), 1)
+        chunks(dict(u, kind="box_point", d=2, corners=L1P, points=HALF(-1, 2)), 6)
+        chunks(dict(u, kind="box_pair", d=1, corners=L2), 1)
+        chunks(dict(u, kind="box_pair", d=2, corners=L1P if th else L1), 16 if th else 3)
+        chunks(dict(u, kind="of_points", d=1, alpha=L2, maxn=3), 1)
+        chunks(dict(u, kind="of_points", d=2, alpha=L2 if th else L1, maxn=3), 5 if th else 1)
+        chunks(dict(u, kind="pad", d=1, corners=L2), 1)
+        if th:
+            chunks(dict(u, kind="box_point", d=3, corners=[0, 1], points=HALF(0, 1)), 4)
+            chunks(dict(u, kind="pad", d=2, corners=L1), 3)
     # ---- (c) history BFS
     for init in INITS:
         if th:
@@ -121,7 +151,7 @@ def tasks(tier):
 class Ctx:
     """Per-task context: library handles + guard."""
 
-    def __init__(self, rep, init="default"):
+    def __init__(self, rep, init="default", unit_exp=0):
         import numpy as np
         import mouette as M
         import mouette.geometry as G
@@ -134,9 +164,26 @@ class Ctx:
         self.g = Guard(rep, np, G.AABB, INITS[init], self.lib)
 
         self.evals = {}
+        # unit of length: every coordinate of the swept lattices is multiplied by 2^unit_exp (exactly: Python ints
+        # for a positive exponent, dyadic floats for a negative one), expectations follow by exact arithmetic
+        self.uexp = unit_exp
+        self.U = 2.0 ** unit_exp
+
+    def sc(self, x):
+        if not self.uexp:
+            return x
+        return x * (2 ** self.uexp) if self.uexp > 0 else x * self.U
+
+    def scv(self, v):
+        return tuple(self.sc(x) for x in v) if self.uexp else tuple(v)
+
+    def sub(self, sub):
+        """under a unit-of-length deviation every clause is its own subcheck C12.scale.<clause>"""
+        return "C12.scale." + sub[4:] if self.uexp and sub.startswith("C12.") and not sub.startswith("C12.effects.") else sub
 
     def ev(self, sub, n=1):
         e = self.evals
+        sub = self.sub(sub)
         e[sub] = e.get(sub, 0) + n
 
     def flush(self):
@@ -146,16 +193,18 @@ class Ctx:
         self.evals = {}
 
     def bad(self, sub, callee, kind, icls, detail):
-        self.g.viol(sub, callee, kind, icls, detail)
+        self.g.viol(self.sub(sub), callee, kind, icls, detail)
 
 
-def close(a, b, tol=1e-12):
+def close(a, b, tol=1e-12, unit=1.0):
+    """relative tolerance; `unit` = magnitude of the quantities of this kind in the sweep (1 on the unit lattice,
+    2^k under a unit-of-length deviation) below which the tolerance is absolute"""
     a, b = float(a), float(b)
     if a == b:
         return True
     if a != a or b != b or math.isinf(a) or math.isinf(b):
         return False
-    return abs(a - b) <= tol * max(1.0, abs(a), abs(b))
+    return abs(a - b) <= tol * max(unit, abs(a), abs(b))
 
 
 def _arr(np, v, dt):
@@ -182,8 +231,9 @@ def _box_class(lo, hi):
 def run_box_point(task, c: Ctx):
     np, AABB, g, rep = c.np, c.AABB, c.g, c.rep
     d, dt = task["d"], task["dtype"]
-    boxes = _boxes(task["corners"], d)
-    pts = list(itertools.product(task["points"], repeat=d))
+    U = c.U
+    boxes = [(c.scv(lo), c.scv(hi)) for lo, hi in _boxes(task["corners"], d)]
+    pts = [c.scv(p) for p in itertools.product(task["points"], repeat=d)]
     parr = [np.array(p, dtype=float) for p in pts]
     NORMS = ("l1", "l2", "linf")
     for bi in range(task["chunk"], len(boxes), task["of"]):
@@ -228,7 +278,7 @@ def run_box_point(task, c: Ctx):
                 c.ev("C12.box.distance")
                 if isinstance(dist[w], str):
                     c.bad("C12.box.distance", "AABB.distance", dist[w], cls, det({"norm": w}))
-                elif not close(dist[w], want[w]):
+                elif not close(dist[w], want[w], unit=U):
                     c.bad("C12.box.distance", "AABB.distance", "mismatch:distance", cls,
                           det({"norm": w, "got": dist[w], "want": want[w]}))
                 if cont and not isinstance(dist[w], str):
@@ -248,7 +298,7 @@ def run_box_point(task, c: Ctx):
             real = {"l1": sum(diff), "linf": max(diff), "l2": math.sqrt(sum(x * x for x in diff))}
             for w in NORMS:
                 c.ev("C12.box.project.realises_distance")
-                if not close(real[w], want[w]):
+                if not close(real[w], want[w], unit=U):
                     c.bad("C12.box.project.realises_distance", "AABB.project", "mismatch:not_closest", cls,
                           det({"norm": w, "projection": pr, "its_distance": real[w], "box_distance": want[w]}))
 
@@ -256,7 +306,7 @@ def run_box_point(task, c: Ctx):
 def run_box_pair(task, c: Ctx):
     np, AABB, g, rep = c.np, c.AABB, c.g, c.rep
     d, dt = task["d"], task["dtype"]
-    boxes = _boxes(task["corners"], d)
+    boxes = [(c.scv(lo), c.scv(hi)) for lo, hi in _boxes(task["corners"], d)]
     objs = [AABB(_arr(np, lo, dt), _arr(np, hi, dt)) for lo, hi in boxes]
     inv = [_box_class(lo, hi) == "inverted" for lo, hi in boxes]
     for i in range(task["chunk"], len(boxes), task["of"]):
@@ -311,7 +361,7 @@ def _tight(points):
 def run_of_points(task, c: Ctx):
     np, AABB, g, rep = c.np, c.AABB, c.g, c.rep
     d = task["d"]
-    lat = list(itertools.product(task["alpha"], repeat=d))
+    lat = [c.scv(p) for p in itertools.product(task["alpha"], repeat=d)]
     idx = 0
     for n in range(1, task["maxn"] + 1):
         for pts in itertools.product(lat, repeat=n):
@@ -322,10 +372,10 @@ def run_of_points(task, c: Ctx):
             rep.case(("ofp", d, pts))
             tm, tM = _tight(pts)
             forms = [("float_ndarray", np.array(pts, dtype=float)), ("list", [list(p) for p in pts])]
-            if d < 3 or n < 3:
+            if (d < 3 or n < 3) and c.uexp >= 0:
                 forms.append(("int_ndarray", np.array(pts, dtype=int)))
             for fname, data in forms:
-                for pad in (0.0, 0.5):
+                for pad in (0.0, c.sc(0.5)):
                     if pad and (fname != "float_ndarray" or n == 3):
                         continue
                     ok, b, exc = g.call("AABB.of_points", AABB.of_points, data, pad) if pad else \
@@ -384,13 +434,14 @@ def run_of_mesh(task, c: Ctx):
                 before = canon(mesh)
 
 
-def _pad_values(np, d):
-    vals = [("scalar", x) for x in (-1.0, 0.0, 0.5, 2.0)]
+def _pad_values(np, d, c):
+    vals = [("scalar", c.sc(x)) for x in (-1.0, 0.0, 0.5, 2.0)]
     for v in itertools.product((-1.0, 0.0, 1.5), repeat=d):
-        vals.append(("float_ndarray", np.array(v)))
-    vals.append(("list", [0.5] * d))
-    vals.append(("int_ndarray", np.array([1] * d)))
-    vals.append(("wrong_dim", np.array([1.0] * (d + 1))))
+        vals.append(("float_ndarray", np.array(c.scv(v))))
+    vals.append(("list", [c.sc(0.5)] * d))
+    if c.uexp >= 0:
+        vals.append(("int_ndarray", np.array([c.sc(1)] * d)))
+    vals.append(("wrong_dim", np.array([c.sc(1.0)] * (d + 1))))
     return vals
 
 
@@ -399,12 +450,12 @@ def run_pad(task, c: Ctx):
     other box built from the same corners must stay what they were."""
     np, AABB, g, rep = c.np, c.AABB, c.g, c.rep
     d = task["d"]
-    boxes = _boxes(task["corners"], d)
+    boxes = [(c.scv(lo), c.scv(hi)) for lo, hi in _boxes(task["corners"], d)]
     for bi in range(task["chunk"], len(boxes), task["of"]):
         lo, hi = boxes[bi]
         rep.case(("pad", d, lo, hi))
-        for built in ("float_ndarray", "int_ndarray", "list"):
-            for pk, pv in _pad_values(np, d):
+        for built in ("float_ndarray", "int_ndarray", "list") if c.uexp >= 0 else ("float_ndarray", "list"):
+            for pk, pv in _pad_values(np, d, c):
                 rep.traces += 1
                 if built == "list":
                     src = [[float(x) for x in lo], [float(x) for x in hi]]
@@ -524,7 +575,8 @@ def _isq(n):
 def run_cross_dot_norm(task, c: Ctx):
     np, G, g, rep, Vec = c.np, c.G, c.g, c.rep, c.Vec
     dt = task["dtype"]
-    lat = _lat(L2, 3)
+    U = c.U
+    lat = [c.scv(v) for v in _lat(L2, 3)]
     arrs = [_arr(np, v, dt) for v in lat]
     vecs = [Vec(a.copy()) for a in arrs]
     for A, a, va in zip(lat, arrs, vecs):
@@ -534,7 +586,7 @@ def run_cross_dot_norm(task, c: Ctx):
             for name, fn, args in (("norm", G.norm, (a, w)), ("Vec.norm", Vec.norm, (va, w))):
                 ok, v, exc = g.call(name, fn, *args)
                 c.ev("C12.prim.norm")
-                if not ok or not close(v, want[w]):
+                if not ok or not close(v, want[w], unit=U):
                     c.bad("C12.prim.norm", name, "mismatch:norm_" + w if ok else "raises:" + exc, dt, {"v": list(A), "got": repr(v)})
         for B, b in zip(lat, arrs):
             rep.traces += 1
@@ -553,11 +605,11 @@ def run_cross_dot_norm(task, c: Ctx):
             for w in ("l1", "l2", "linf"):
                 ok, v, exc = g.call("distance", G.distance, a, b, w)
                 c.ev("C12.prim.distance")
-                if not ok or not close(v, wd[w]):
+                if not ok or not close(v, wd[w], unit=U):
                     c.bad("C12.prim.distance", "distance", "mismatch:distance_" + w if ok else "raises:" + exc, dt,
                           {"A": list(A), "B": list(B), "got": repr(v), "want": wd[w]})
     # dimension mismatch / wrong norm name: no value promised, only absence of side effects (checked by the guard)
-    a2 = _arr(np, (1, 2), dt)
+    a2 = _arr(np, c.scv((1, 2)), dt)
     for name, fn, args in (("cross", G.cross, (a2, arrs[7])), ("dot", G.dot, (a2, arrs[7])), ("distance", G.distance, (a2, arrs[7])),
                            ("norm", G.norm, (arrs[7], "l3")), ("cross", G.cross, (arrs[7], a2))):
         ok, v, exc = g.call(name, fn, *args)
@@ -575,7 +627,7 @@ def _eqnum(v, want):
 
 def run_det2(task, c: Ctx):
     np, G, g, rep = c.np, c.G, c.g, c.rep
-    lat = _lat(L2, 2)
+    lat = [c.scv(v) for v in _lat(L2, 2)]
     for A in lat:
         rep.case(("det2", A))
         for B in lat:
@@ -584,6 +636,8 @@ def run_det2(task, c: Ctx):
             forms = [("ndarray_int", np.array(A), np.array(B)), ("ndarray_float", np.array(A, float), np.array(B, float)),
                      ("complex", complex(*A), complex(*B)), ("complex_ndarray", complex(*A), np.array(B, float)),
                      ("ndarray_complex", np.array(A, float), complex(*B)), ("list", list(A), list(B))]
+            if c.uexp:
+                forms = [fm for fm in forms if fm[0] not in ("ndarray_int", "list")]    # integer products would leave int64
             for fname, x, y in forms:
                 ok, v, exc = g.call("det_2x2", G.det_2x2, x, y)
                 c.ev("C12.prim.det_2x2")
@@ -594,7 +648,7 @@ def run_det2(task, c: Ctx):
 
 def run_det3(task, c: Ctx):
     np, G, g, rep = c.np, c.G, c.g, c.rep
-    lat = _lat(task["alpha"], 3)
+    lat = [c.scv(v) for v in _lat(task["alpha"], 3)]
     arrs = [np.array(v, dtype=float) for v in lat]
     for i in range(task["chunk"], len(lat), task["of"]):
         A = lat[i]
@@ -609,7 +663,7 @@ def run_det3(task, c: Ctx):
                     c.bad("C12.prim.det_3x3", "det_3x3", "mismatch:det" if ok else "raises:" + exc, "three_vectors",
                           {"A": list(A), "B": list(B), "C": list(C), "got": repr(v), "want": want})
                 if (j + k) % 5 == 0:
-                    m = np.array([A, B, C])          # integer matrix form
+                    m = np.array([A, B, C], dtype=float if c.uexp else int)          # integer matrix form (unit lattice)
                     ok, v, exc = g.call("det_3x3", G.det_3x3, m)
                     c.ev("C12.prim.det_3x3")
                     if not ok or not _eqnum(v, want):
@@ -617,9 +671,9 @@ def run_det3(task, c: Ctx):
                               {"rows": [list(A), list(B), list(C)], "got": repr(v), "want": want})
 
 
-def _triples(task):
+def _triples(task, c):
     """(B, A, C): B in inner^3, A and C in outer^3; chunked over (B, A)."""
-    inner, outer = _lat(task["inner"], 3), _lat(task["outer"], 3)
+    inner, outer = [c.scv(v) for v in _lat(task["inner"], 3)], [c.scv(v) for v in _lat(task["outer"], 3)]
     idx = 0
     for B in inner:
         for A in outer:
@@ -638,7 +692,7 @@ def _angle_oracle(u, v):
 def run_angle3(task, c: Ctx):
     np, G, g, rep = c.np, c.G, c.g, c.rep
     f = lambda p: np.array(p, dtype=float)
-    for B, A, outer in _triples(task):
+    for B, A, outer in _triples(task, c):
         rep.case(("angle3", B, A))
         b, a = f(B), f(A)
         for C in outer:
@@ -681,7 +735,7 @@ def run_signed(task, c: Ctx):
     f = lambda p: np.array(p, dtype=float)
     normals = _lat(L1, 3)
     narr = [f(n) for n in normals]
-    outer = _lat(task["outer"], 3)
+    outer = [c.scv(v) for v in _lat(task["outer"], 3)]     # the reference normal is a direction: not scaled
     for i in range(task["chunk"], len(outer), task["of"]):
         V1 = outer[i]
         rep.case(("signed", V1))
@@ -690,7 +744,7 @@ def run_signed(task, c: Ctx):
             v2 = f(V2)
             S = X.cross(V1, V2)
             mag = _angle_oracle(V1, V2)
-            B = normals[(i + 2 * j) % 27]           # centre of the three-point form
+            B = c.scv(normals[(i + 2 * j) % 27])           # centre of the three-point form
             a_pt, b_pt, cpt = f(X.add(V1, B)), f(B), f(X.add(V2, B))
             for N, n in zip(normals, narr):
                 rep.traces += 1
@@ -703,6 +757,10 @@ def run_signed(task, c: Ctx):
                     icls = "generic"
                 rep.flag("signed:" + icls)
                 det = {"V1": list(V1), "V2": list(V2), "N": list(N)}
+                if c.uexp and icls == "normal_orthogonal_to_V1xV2":
+                    # known finding of the unit lattice (no antisymmetric value exists): not judged again per unit
+                    rep.count("filtered:scaled_signed_angle_normal_orthogonal")
+                    continue
                 ok1, s12, e1 = g.call("signed_angle_2vec3D", G.signed_angle_2vec3D, v1, v2, n)
                 ok2, s21, e2 = g.call("signed_angle_2vec3D", G.signed_angle_2vec3D, v2, v1, n)
                 c.ev("C12.prim.signed_angle.antisymmetric")
@@ -730,7 +788,7 @@ def run_signed(task, c: Ctx):
                     c.bad("C12.prim.signed_angle.orientation", "signed_angle_3pts", "mismatch:differs_from_two_vector_form", icls,
                           dict(det, B=list(B), three_pts=t12, two_vec=s12))
     if task["chunk"] == 0:
-        lat2 = _lat(L2, 2)
+        lat2 = [c.scv(v) for v in _lat(L2, 2)]
         for V1 in lat2:
             for V2 in lat2:
                 rep.traces += 1
@@ -745,7 +803,7 @@ def run_signed(task, c: Ctx):
 def run_cotan(task, c: Ctx):
     np, G, g, rep = c.np, c.G, c.g, c.rep
     f = lambda p: np.array(p, dtype=float)
-    for B, A, outer in _triples(task):
+    for B, A, outer in _triples(task, c):
         rep.case(("cotan", B, A))
         a, b = f(A), f(B)
         u = X.sub(A, B)
@@ -784,7 +842,8 @@ def run_cotan(task, c: Ctx):
 def run_circum(task, c: Ctx):
     np, G, g, rep = c.np, c.G, c.g, c.rep
     f = lambda p: np.array(p, dtype=float)
-    for V1, V2, outer in _triples(task):
+    U = c.U
+    for V1, V2, outer in _triples(task, c):
         rep.case(("circ", V1, V2))
         p1, p2 = f(V1), f(V2)
         for V3 in outer:
@@ -803,12 +862,12 @@ def run_circum(task, c: Ctx):
                 continue
             cl = [float(x) for x in np.asarray(cen).ravel().tolist()]
             r = [math.sqrt(sum((x - y) ** 2 for x, y in zip(cl, P))) for P in (V1, V2, V3)]
-            if len(cl) != 3 or not (close(r[0], r[1], 1e-9) and close(r[0], r[2], 1e-9)):
+            if len(cl) != 3 or not (close(r[0], r[1], 1e-9, U) and close(r[0], r[2], 1e-9, U)):
                 c.bad("C12.prim.circumcenter.equidistant", "circumcenter", "mismatch:not_equidistant", "nondegenerate",
                       dict(det, got=cl, distances=r))
             # outside the statement (only counted): is the point the circumcentre IN the triangle's plane?
             ex = [float(x) for x in X.circumcenter(X.F(V1), X.F(V2), X.F(V3))]
-            if not all(close(x, y, 1e-9) for x, y in zip(cl, ex)):
+            if not all(close(x, y, 1e-9, U) for x, y in zip(cl, ex)):
                 rep.count("observed:circumcenter_equidistant_but_off_the_triangle_plane")
             else:
                 rep.count("observed:circumcenter_equals_exact_circumcentre")
@@ -824,7 +883,8 @@ def _cs(k):
 
 def run_rot2d(task, c: Ctx):
     np, G, g, rep = c.np, c.G, c.g, c.rep
-    lat = _lat(L2, 2)
+    lat = [c.scv(v) for v in _lat(L2, 2)]
+    U = c.U
     ks = list(range(-12, 13))
     for k in ks:
         ang = k * math.pi / 6
@@ -844,7 +904,7 @@ def run_rot2d(task, c: Ctx):
             rl = [float(x) for x in r.tolist()]
             imgs.append(rl)
             want = [V[0] * co - V[1] * si, V[0] * si + V[1] * co]
-            if not all(close(x, y) for x, y in zip(rl, want)):
+            if not all(close(x, y, unit=U) for x, y in zip(rl, want)):
                 c.bad("C12.prim.rotate_2d.value", "rotate_2d", "mismatch:rotation", "lattice", dict(det, got=rl, want=want))
             c.ev("C12.prim.rotate_2d.fixes_centre")
             if V == (0, 0) and rl != [0.0, 0.0]:
@@ -853,12 +913,12 @@ def run_rot2d(task, c: Ctx):
                 ok2, r2, _ = g.call("rotate_2d", G.rotate_2d, r, k2 * math.pi / 6)
                 ok3, r3, _ = g.call("rotate_2d", G.rotate_2d, v, ang + k2 * math.pi / 6)
                 c.ev("C12.prim.rotate_2d.additive")
-                if not (ok2 and ok3) or not all(close(x, y, 1e-11) for x, y in zip(r2.tolist(), r3.tolist())):
+                if not (ok2 and ok3) or not all(close(x, y, 1e-11, U) for x, y in zip(r2.tolist(), r3.tolist())):
                     c.bad("C12.prim.rotate_2d.additive", "rotate_2d", "mismatch:composition", "lattice",
                           dict(det, second=f"{k2}*pi/6", composed=repr(r2), direct=repr(r3)))
         for (V, a), (W, b) in itertools.combinations([(V, a) for V, a in zip(lat, imgs) if a is not None], 2):
             c.ev("C12.prim.rotate_2d.isometry")
-            if not close(math.dist(a, b), math.dist(V, W)):
+            if not close(math.dist(a, b), math.dist(V, W), unit=U):
                 c.bad("C12.prim.rotate_2d.isometry", "rotate_2d", "mismatch:distance_not_preserved", "lattice",
                       {"p": list(V), "q": list(W), "angle": f"{k}*pi/6", "images": [a, b]})
 
@@ -874,20 +934,22 @@ def _rodrigues(V, AX, k):
 
 def run_rot3d(task, c: Ctx):
     np, G, g, rep = c.np, c.G, c.g, c.rep
-    lat = _lat(L1, 3)
+    ulat = _lat(L1, 3)
+    lat = [c.scv(v) for v in ulat]                 # points in the unit of length; the axis is a direction (not scaled)
+    U = c.U
     ks = list(range(-6, 7))
     k2s = ks if task["full"] else [1, 3, 6, -2]
-    AX = lat[task["chunk"]]
+    AX = ulat[task["chunk"]]
     ax = np.array(AX, dtype=float)
     zero_axis = X.sqnorm(AX) == 0
     for k in ks:
         ang = k * math.pi / 6
         imgs = []
-        pts = lat + [X.scale(AX, -2)]
+        pts = lat + [c.scv(X.scale(AX, -2))]
         for V in pts:
             rep.traces += 1
             rep.case(("rot3d", AX, k, V))
-            v = np.array(V, dtype=float if (V[0] + k) % 2 else int)
+            v = np.array(V, dtype=float if (c.uexp or (V[0] + k) % 2) else int)
             ok, r, exc = g.call("rotate_around_axis", G.rotate_around_axis, v, ax, ang)
             rep.outcome("rotate_around_axis", exc if not ok else "value")
             if zero_axis:
@@ -904,32 +966,55 @@ def run_rot3d(task, c: Ctx):
             rl = [float(x) for x in r.tolist()]
             imgs.append(rl)
             want = _rodrigues(V, AX, k)
-            if not all(close(x, y) for x, y in zip(rl, want)):
+            if not all(close(x, y, unit=U) for x, y in zip(rl, want)):
                 c.bad("C12.prim.rotate_around_axis.value", "rotate_around_axis", "mismatch:rotation", "nonzero_axis", dict(det, got=rl, want=want))
             c.ev("C12.prim.rotate_around_axis.norm_preserved")
-            if not close(math.hypot(*rl), math.sqrt(X.sqnorm(V))):
+            if not close(math.hypot(*rl), math.sqrt(X.sqnorm(V)), unit=U):
                 c.bad("C12.prim.rotate_around_axis.isometry", "rotate_around_axis", "mismatch:norm_not_preserved", "nonzero_axis", dict(det, got=rl))
             if X.sqnorm(X.cross(V, AX)) == 0:       # V on the axis
                 c.ev("C12.prim.rotate_around_axis.fixes_axis")
-                if not all(close(x, y) for x, y in zip(rl, V)):
+                if not all(close(x, y, unit=U) for x, y in zip(rl, V)):
                     c.bad("C12.prim.rotate_around_axis.fixes_axis", "rotate_around_axis", "mismatch:axis_point_moved", "nonzero_axis", dict(det, got=rl))
             if V in lat:
                 for k2 in k2s:
                     ok2, r2, _ = g.call("rotate_around_axis", G.rotate_around_axis, r, ax, k2 * math.pi / 6)
                     ok3, r3, _ = g.call("rotate_around_axis", G.rotate_around_axis, v, ax, ang + k2 * math.pi / 6)
                     c.ev("C12.prim.rotate_around_axis.additive")
-                    if not (ok2 and ok3) or not all(close(x, y, 1e-11) for x, y in zip(r2.tolist(), r3.tolist())):
+                    if not (ok2 and ok3) or not all(close(x, y, 1e-11, U) for x, y in zip(r2.tolist(), r3.tolist())):
                         c.bad("C12.prim.rotate_around_axis.additive", "rotate_around_axis", "mismatch:composition", "nonzero_axis",
                               dict(det, second=f"{k2}*pi/6", composed=repr(r2), direct=repr(r3)))
         if not zero_axis:
             for (V, a), (W, b) in itertools.combinations([(V, a) for V, a in zip(pts, imgs) if a is not None], 2):
                 c.ev("C12.prim.rotate_around_axis.isometry")
-                if not close(math.dist(a, b), math.dist(V, W)):
+                if not close(math.dist(a, b), math.dist(V, W), unit=U):
                     c.bad("C12.prim.rotate_around_axis.isometry", "rotate_around_axis", "mismatch:distance_not_preserved", "nonzero_axis",
                           {"p": list(V), "q": list(W), "axis": list(AX), "angle": f"{k}*pi/6", "images": [a, b]})
-    # axis_rot_from_z: only watched for side effects (not a clause of the statement)
-    for V in lat:
-        g.call("axis_rot_from_z", G.axis_rot_from_z, np.array(V, dtype=float))
+    # axis_rot_from_z (not named in the statement): its docstring - "the rotation that aligns the z axis with v" - for
+    # v not parallel to z (parallel: no unique answer, only watched for side effects); the rotation vector is applied
+    # to (0,0,1) with the oracle's own Rodrigues formula
+    if task["chunk"] == 0:
+        for V in lat:
+            ok, r, exc = g.call("axis_rot_from_z", G.axis_rot_from_z, np.array(V, dtype=float))
+            if V[0] == 0 and V[1] == 0:
+                rep.count("degenerate_calls:axis_rot_from_z_parallel_to_z")
+                continue
+            c.ev("C12.prim.axis_rot_from_z")
+            det = {"v": list(V)}
+            if not ok:
+                c.bad("C12.prim.axis_rot_from_z", "axis_rot_from_z", "raises:" + exc, "not_parallel_to_z", det)
+                continue
+            w = [float(x) for x in np.asarray(r).ravel().tolist()]
+            th = math.sqrt(sum(x * x for x in w)) if len(w) == 3 else 0.0
+            img = None
+            if th > 0:
+                kx = [x / th for x in w]
+                kz = X.cross(kx, (0.0, 0.0, 1.0))
+                img = [math.cos(th) * e + math.sin(th) * kz[i] + kx[i] * kx[2] * (1 - math.cos(th)) for i, e in enumerate((0.0, 0.0, 1.0))]
+            ln = math.sqrt(X.sqnorm(V))
+            want = [x / ln for x in V]
+            if img is None or not all(close(x, y, 1e-9) for x, y in zip(img, want)):
+                c.bad("C12.prim.axis_rot_from_z", "axis_rot_from_z", "mismatch:z_not_aligned_with_v", "not_parallel_to_z",
+                      dict(det, rotation_vector=w, image_of_z=img, want=want))
 
 
 def run_reduce(task, c: Ctx):
@@ -1006,13 +1091,15 @@ def run_roots(task, c: Ctx):
 
 def run_plane(task, c: Ctx):
     np, G, g, rep = c.np, c.G, c.g, c.rep
-    lat = _lat(task["alpha"], 3)
+    ulat = _lat(task["alpha"], 3)
+    lat = [c.scv(v) for v in ulat]                  # points scaled; the normal is a direction (not scaled)
+    U = c.U
     for i in range(task["chunk"], len(lat), task["of"]):
         P = lat[i]
         rep.case(("plane", P))
-        for dt in ("float", "int"):
+        for dt in ("float", "int") if not c.uexp else ("float",):
             p = _arr(np, P, dt)
-            for N in lat:
+            for N in ulat:
                 n = _arr(np, N, dt)
                 for O in lat:
                     rep.traces += 1
@@ -1026,15 +1113,16 @@ def run_plane(task, c: Ctx):
                     if not ok:
                         c.bad("C12.prim.project_to_plane", "project_to_plane", "raises:" + exc, "nonzero_normal", det)
                         continue
-                    t = Fr(X.dot(X.sub(P, O), N), X.sqnorm(N))
-                    want = [float(P[k] - t * N[k]) for k in range(3)]
-                    if not all(close(x, y) for x, y in zip(r.tolist(), want)):
+                    t = Fr(X.dot(X.sub(P, O), N)) / Fr(X.sqnorm(N))
+                    want = [float(Fr(P[k]) - t * N[k]) for k in range(3)]
+                    if not all(close(x, y, unit=U) for x, y in zip(r.tolist(), want)):
                         c.bad("C12.prim.project_to_plane", "project_to_plane", "mismatch:projection", "nonzero_normal", dict(det, got=r.tolist(), want=want))
 
 
 def run_lines2d(task, c: Ctx):
     np, G, g, rep, Vec = c.np, c.G, c.g, c.rep, c.Vec
-    pl, dl = _lat(task["palpha"], 2), _lat(task["dalpha"], 2)
+    pl, dl = [c.scv(v) for v in _lat(task["palpha"], 2)], [c.scv(v) for v in _lat(task["dalpha"], 2)]
+    U = c.U
     mk = lambda p: Vec(np.array(p, dtype=float))
     for i in range(task["chunk"], len(pl), task["of"]):
         P1 = pl[i]
@@ -1056,15 +1144,16 @@ def run_lines2d(task, c: Ctx):
                             c.bad("C12.prim.intersect_2lines2D", "intersect_2lines2D", "mismatch:point_for_parallel_lines", icls, dict(det, got=repr(r)))
                     else:
                         w = X.sub(P2, P1)
-                        t = Fr(w[0] * D2[1] - w[1] * D2[0], dd)
-                        want = [float(P1[k] + t * D1[k]) for k in range(2)]
-                        if r is None or not all(close(x, y) for x, y in zip(r.tolist(), want)):
+                        t = Fr(w[0] * D2[1] - w[1] * D2[0]) / Fr(dd)
+                        want = [float(Fr(P1[k]) + t * Fr(D1[k])) for k in range(2)]
+                        if r is None or not all(close(x, y, unit=U) for x, y in zip(r.tolist(), want)):
                             c.bad("C12.prim.intersect_2lines2D", "intersect_2lines2D", "mismatch:intersection", icls, dict(det, got=repr(r), want=want))
 
 
 def run_seg2d(task, c: Ctx):
     np, G, g, rep = c.np, c.G, c.g, c.rep
-    lat = _lat(task["alpha"], 2)
+    lat = [c.scv(v) for v in _lat(task["alpha"], 2)]
+    U = c.U
     f = lambda p: np.array(p, dtype=float)
     for i in range(task["chunk"], len(lat), task["of"]):
         P = lat[i]
@@ -1078,12 +1167,12 @@ def run_seg2d(task, c: Ctx):
                 if ss == 0:
                     q = A
                 else:
-                    t = min(Fr(1), max(Fr(0), Fr(X.dot(X.sub(P, A), s), ss)))
-                    q = [A[k] + t * s[k] for k in range(2)]
+                    t = min(Fr(1), max(Fr(0), Fr(X.dot(X.sub(P, A), s)) / Fr(ss)))
+                    q = [Fr(A[k]) + t * Fr(s[k]) for k in range(2)]
                 want = math.sqrt(float(sum((Fr(P[k]) - q[k]) ** 2 for k in range(2))))
                 c.ev("C12.prim.distance_to_segment2D")
                 icls = "point_segment" if ss == 0 else "segment"
-                if not ok or not close(r, want):
+                if not ok or not close(r, want, unit=U):
                     c.bad("C12.prim.distance_to_segment2D", "distance_to_segment2D", "mismatch:distance" if ok else "raises:" + exc, icls,
                           {"P": list(P), "A": list(A), "B": list(B), "got": repr(r), "want": want})
 
@@ -1362,10 +1451,15 @@ RUNNERS = {
     "rot3d": run_rot3d, "reduce": run_reduce, "roots": run_roots, "plane": run_plane, "lines2d": run_lines2d,
     "seg2d": run_seg2d, "bfs": run_bfs,
 }
+RUNNERS.update(XE.RUNNERS)
 
 
 def run_task(task, rep: Report):
-    c = Ctx(rep, "default")
+    ue = task.get("unit_exp", 0)
+    c = Ctx(rep, "default", ue)
+    if ue:
+        rep.class_suffix = f":unit=2^{ue}"      # appended to the input class of every fingerprint of the task
+        rep.flag(f"unit:2^{ue}")
     with warnings.catch_warnings():
         warnings.simplefilter("ignore")
         try:
@@ -1386,7 +1480,15 @@ EXPECTED_EVALS = [
     "C12.prim.rotate_2d.additive", "C12.prim.rotate_2d.isometry", "C12.prim.rotate_around_axis.additive",
     "C12.prim.rotate_around_axis.isometry", "C12.prim.rotate_around_axis.fixes_axis", "C12.prim.principal_angle",
     "C12.prim.angle_diff", "C12.prim.roots", "C12.prim.project_to_plane", "C12.prim.intersect_2lines2D",
-    "C12.prim.distance_to_segment2D",
+    "C12.prim.distance_to_segment2D", "C12.prim.axis_rot_from_z",
+] + XE.EXPECTED_EVALS + [
+    # the unit-of-length deviation reached every family of clauses
+    "C12.scale.box.distance", "C12.scale.box.project.realises_distance", "C12.scale.box.do_intersect", "C12.scale.box.of_points.tight",
+    "C12.scale.box.pad.documented_effect", "C12.scale.prim.norm", "C12.scale.prim.cross", "C12.scale.prim.det_2x2",
+    "C12.scale.prim.det_3x3", "C12.scale.prim.angle_3pts.value", "C12.scale.prim.signed_angle.orientation",
+    "C12.scale.prim.cotan.value", "C12.scale.prim.circumcenter.equidistant", "C12.scale.prim.rotate_2d.value",
+    "C12.scale.prim.rotate_around_axis.value", "C12.scale.prim.project_to_plane", "C12.scale.prim.intersect_2lines2D",
+    "C12.scale.prim.distance_to_segment2D", "C12.scale.prim.axis_rot_from_z",
 ]
 
 
@@ -1410,4 +1512,8 @@ def finish(tier, rep: Report):
     for i in INITS:
         if rep.counters.get("bfs_states:" + i, 0) < 10:
             fails.append("BFS from " + i + " reached fewer than 10 states")
+    for ue in UNIT_EXPS:
+        if f"unit:2^{ue}" not in rep.flags:
+            fails.append(f"unit-of-length deviation 2^{ue} not run")
+    fails += XE.finish(tier, rep)
     return fails
